@@ -69,8 +69,9 @@ crate::verif_harness! {
 }
 
 /// Field-by-field postcondition of `parse_chunk` against the layout in spec/fmt.rs.
-fn check_layer_chunk(data: &[u8]) {
+fn check_layer_chunk(data: &[u8]) -> bool {
     let got = parse_chunk(data);
+    let decoded_ok = got.is_ok();
     let want = fmt::layer(data);
     match (got, want) {
         (Ok(l), Some(w)) => {
@@ -90,25 +91,27 @@ fn check_layer_chunk(data: &[u8]) {
         (Ok(_), None) => assert!(false, "decoder accepted a chunk the format rejects (short, bad enum or bad UTF-8)"),
         (Err(_), Some(_)) => assert!(false, "decoder rejected a well-formed layer chunk"),
     }
+    decoded_ok
 }
 
 macro_rules! layer_shape {
-    ($hname:ident, $n:expr) => {
+    ($hname:ident, $n:expr, $u:expr, $can_ok:expr) => {
         crate::verif_harness! {
             /// layer::parse_chunk on every payload of exactly $n bytes (symbolic contents): Ok iff the
             /// layout fits, enums are in range and the name is UTF-8, and then every stored attribute
             /// equals the layout read. BOUNDED in the payload size only.
             #[kani::stub(std::fmt::format, crate::verif_spec::stubs::format_stub)]
-            #[kani::unwind(12)]
+            #[kani::unwind($u)]
             fn $hname(s) {
                 let d: [u8; $n] = s.bytes();
-                check_layer_chunk(&d);
-                crate::vcover!(parse_chunk(&d).is_ok(), "some payload of this size decodes");
+                let ok = check_layer_chunk(&d);
+                crate::vcover!(ok || !$can_ok, "a well-formed payload of this size decodes");
+                crate::vcover!(!ok, "a malformed payload of this size is rejected");
             }
         }
     };
 }
-layer_shape!(k_layer_chunk_18, 18); // empty name, image/group
-layer_shape!(k_layer_chunk_21, 21); // 3-byte name (incl. multi-byte UTF-8), image/group
-layer_shape!(k_layer_chunk_24, 24); // tilemap layer with 2-byte name, or 6-byte name
-layer_shape!(k_layer_chunk_17, 17); // always too short
+layer_shape!(k_layer_chunk_18, 18, 3, true); // empty name, image/group
+layer_shape!(k_layer_chunk_21, 21, 6, true); // 3-byte name (incl. multi-byte UTF-8), image/group
+layer_shape!(k_layer_chunk_24, 24, 9, true); // tilemap layer with 2-byte name, or 6-byte name
+layer_shape!(k_layer_chunk_17, 17, 3, false); // always too short
